@@ -2,7 +2,16 @@
 mod cmp;
 mod engine;
 mod ul;
-mod us;
+mod us {
+    pub type P = vrt::track::Tracked<1>;
+    pub const UNAME: &str = "S";
+    include!("us_body.rs");
+}
+mod usw {
+    pub type P = vrt::track::TrackedW<1>;
+    pub const UNAME: &str = "SW";
+    include!("us_body.rs");
+}
 mod ut;
 
 use engine::*;
@@ -67,6 +76,7 @@ fn main() {
     let uni = arg(&args, "--universe").unwrap_or("S".into());
     let j = match uni.as_str() {
         "S" => run::<us::US>(&args),
+        "SW" => run::<usw::US>(&args),
         "T" => run::<ut::UT>(&args),
         "L" => run::<ul::UL>(&args),
         _ => panic!("unknown universe"),
